@@ -16,7 +16,7 @@ from sx.core import ctx
 from sx.terms import PChar
 
 BOUNDS = {"quick": {"countries": "one per distinct table signature", "positions": "first, last, both sides of every token boundary, 1 seeded interior position per token; substitution and adjacent transposition"},
-          "thorough": {"countries": "all", "positions": "every position >= 2; substitution and adjacent transposition"}}
+          "thorough": {"countries": "all", "positions": "every position >= 2 for structures without digit-or-letter tokens; for the others token boundaries, first/last and 3 seeded interior positions per token (each position is case-split over the expanded width of what follows); substitution and adjacent transposition"}}
 STUBS = ["as C01"]
 ASSUMPTIONS = ["kind-changing errors are outside the statement (rejected by the class check: C01)"]
 MAXTASKS = 20
@@ -25,9 +25,10 @@ MAXTASKS = 20
 def positions_for(cc, tier, seed):
     cls = "nn" + table.classes(cc)  # positions 2.. of the IBAN
     n = len(cls)
-    if tier == "thorough":
+    if tier == "thorough" and "c" not in cls:
         return list(range(n))
     rnd = random.Random(f"{seed}-{cc}")
+    k_inner = 3 if tier == "thorough" else 1
     pick = {0, 1, 2, n - 1}
     start = 2
     i = 2
@@ -35,7 +36,7 @@ def positions_for(cc, tier, seed):
         if i == n or cls[i] != cls[start]:
             pick.update({start, i - 1})
             inner = list(range(start + 1, i - 1))
-            pick.update(rnd.sample(inner, min(1, len(inner))))
+            pick.update(rnd.sample(inner, min(k_inner, len(inner))))
             start = i
         i += 1
     return sorted(p for p in pick if 0 <= p < n)
